@@ -240,6 +240,51 @@ example (acc : Accepts) (g : ModelLookup) :
   · intro ft hft hno; simp at hft; subst hft
     simp [Ty.optLike, Ty.unionMembers, Ty.isOpt] at hno
 
+/-! ### the refined lax reading
+
+Since `_optimize_union` splices the unions hidden under `Optional` members, `Ty.optLike` is too coarse a test
+for "`optimize_type` makes this field a `DOptional`": `Union[Optional[Union[]]]` is `Ty.optLike` and is
+optimised to `Null` (`optimize_optLike_isOpt_false`).  `Ty.optLikeS` (Proofs/MergeRho.lean: a `DOptional`, or a
+`DUnion` with a `DOptional` member, at least two members and no `DUnion` member — what `merge_field_sets`
+builds) is the test that `optimize_type` honours; `merge_field_sets` is sound for the lax reading with
+this test as well (`mergeFieldSets_soundS`), which is what "merge, then optimise" uses. -/
+
+/-- as `InhFieldsLax`, with the refined test `Ty.optLikeS` for "this field may be absent" -/
+def InhFieldsLaxS (acc : Accepts) (g : ModelLookup) (fs : Fields) (kvs : List (String × Json)) : Prop :=
+  (∀ kv ∈ kvs, (Fields.get? fs kv.1).isSome = true) ∧
+  (∀ kv ∈ kvs, ∀ t, Fields.get? fs kv.1 = some t → Inh acc g t kv.2) ∧
+  (∀ ft ∈ fs, ft.2.optLikeS = false → ∃ kv ∈ kvs, kv.1 = ft.1)
+
+theorem inhFieldsLXS_false_iff {acc g fs kvs} : InhFieldsLXS false acc g fs kvs ↔ InhFieldsLaxS acc g fs kvs := by
+  simp [InhFieldsLXS, InhFieldsLaxS, inhX_false_iff]
+
+/-- the strict reading implies the refined lax one … -/
+theorem inhFields_toLaxS {acc g fs kvs} (h : InhFields acc g fs kvs) : InhFieldsLaxS acc g fs kvs :=
+  ⟨h.1, h.2.1, fun ft hft hno => h.2.2 ft hft (Ty.isOpt_false_of_optLikeS hno)⟩
+
+/-- … which implies the lax one -/
+theorem inhFieldsLaxS_toLax {acc g fs kvs} (h : InhFieldsLaxS acc g fs kvs) : InhFieldsLax acc g fs kvs :=
+  inhFieldsLX_false_iff.1 (inhFieldsLXS_false_iff.2 h).toLX
+
+/-- **C01.3 (full), refined lax reading**: as `mergeFieldSets_sound`, with `Ty.optLikeS` as the test for "may be
+    absent" in hypothesis and conclusion. -/
+theorem mergeFieldSets_soundS {acc : Accepts} {g : ModelLookup} {K : String → Prop} {c : LitCfg}
+    {e : EqEnv} {sets : List Fields} {F fs : Fields} {kvs : List (String × Json)}
+    (hs : HashSoundOn false acc g (Ty.Good K)) (he : EqSoundOn false acc g e (Ty.Good K))
+    (hgood : ∀ m ∈ sets, Ty.Good K (.obj m))
+    (h : mergeFieldSets c e sets = .ok F) (hfs : fs ∈ sets) (hi : InhFieldsLaxS acc g fs kvs) :
+    InhFieldsLaxS acc g F kvs := by
+  have hsets : ∀ m ∈ sets, ∀ f ∈ m, Ty.Good K f.2 := fun m hm f hf => (Ty.good_obj.1 (hgood m hm)).2 f hf
+  exact inhFieldsLXS_false_iff.1
+    ((mergeFieldSets_spec_laxS mergeClosed_good hs he hsets h).2.2 fs hfs kvs (inhFieldsLXS_false_iff.2 hi))
+
+/-- non-vacuity on the witness above: `{}` lies in the merge `{a: Union[Optional[str], int]}` under the refined
+    lax reading too -/
+example (acc : Accepts) (g : ModelLookup) : InhFieldsLaxS acc g [("a", .union [.opt .str, .int])] [] := by
+  refine ⟨by simp, by simp, ?_⟩
+  intro ft hft hno; simp at hft; subst hft
+  revert hno; decide
+
 /-- **C01.3 (partial: no field of an input set is a `DOptional`; strict reading).**
     If an object lies in one of the field sets, it lies in the merged set.
     Hypotheses: hash strings and `==` are sound on generator-stage types, the sets are such types. -/
@@ -318,7 +363,7 @@ example : optimize cfgW eW 5 (.union [.obj [("a", .int)], .obj [("a", .opt .int)
     below a union may have `DOptional` fields (no `Ty.MergeSafe` restriction any more).
     Inside, `_optimize_union` merges the inline objects (`mergeFieldSets_sound`, lax reading) and optimises the
     merged object's fields, which turns every optional-like field (`Union[Optional[str], int]`) into a
-    `DOptional` (`optimize_optLike_isOpt`), restoring the strict reading. -/
+    `DOptional` (`optimize_optLike_isOpt_partial`), restoring the strict reading. -/
 theorem optimize_sound {acc : Accepts} {g : ModelLookup} {K : String → Prop} {cfg : GenCfg}
     {e : EqEnv} {fuel : Nat} {t t' : Ty} {v : Json}
     (hs : HashSoundOn false acc g (Ty.Good K)) (he : EqSoundOn false acc g e (Ty.Good K))
@@ -331,25 +376,91 @@ theorem optimize_sound {acc : Accepts} {g : ModelLookup} {K : String → Prop} {
 theorem optimize_sound_Statement_true : optimize_sound_Statement :=
   fun _ _ _ _ _ _ _ _ _ hs he hrep hrank hg h hi => optimize_sound hs he hrep hrank hg h hi
 
-/-- `optimize_type` of an object also accepts the objects that lie in it *laxly* (a field whose type is a
-    `DUnion` with a `DOptional` member may be absent): this is what makes "merge, then optimise" sound. -/
-theorem optimize_sound_lax {acc : Accepts} {g : ModelLookup} {K : String → Prop} {cfg : GenCfg}
+/-- The former statement of `optimize_sound_lax` (lax reading with `Ty.optLike`).  It was true for the old
+    category split; it is FALSE since `_optimize_union` splices hidden unions: `optimize_sound_lax_false`. -/
+def optimize_sound_lax_Statement : Prop :=
+  ∀ (acc : Accepts) (g : ModelLookup) (K : String → Prop) (cfg : GenCfg) (e : EqEnv) (fuel : Nat)
+    (fs : Fields) (t' : Ty) (kvs : List (String × Json)),
+    HashSoundOn false acc g (Ty.Good K) → EqSoundOn false acc g e (Ty.Good K) →
+    ReplacesSound acc cfg.reg → ReplacesRanked cfg.reg → Ty.Good K (.obj fs) →
+    optimize cfg e fuel (.obj fs) = .ok t' → InhFieldsLax acc g fs kvs → Inh acc g t' (.obj kvs)
+
+/-- The former statement of `optimize_optLike_isOpt` (with `Ty.optLike`): FALSE now, `optimize_optLike_isOpt_false`. -/
+def optimize_optLike_isOpt_Statement : Prop :=
+  ∀ (acc : Accepts) (g : ModelLookup) (K : String → Prop) (cfg : GenCfg) (e : EqEnv) (fuel : Nat) (t t' : Ty),
+    HashSoundOn false acc g (Ty.Good K) → EqSoundOn false acc g e (Ty.Good K) →
+    ReplacesSound acc cfg.reg → ReplacesRanked cfg.reg → Ty.Good K t →
+    optimize cfg e fuel t = .ok t' → t.optLike = true → t'.isOpt = true
+
+/-- the witness: `Union[Optional[Union[]]]` (a `DUnion` with a `DOptional` member) is optimised to `Null` — the
+    empty union under the `Optional` is spliced away and `Null` is the only entry left —, and
+    `{a: Union[Optional[Union[]]]}` to `{a: Null}` -/
+theorem optimize_degenerate_witness :
+    optimize cfgW eW1 4 (.union [.opt (.union [])]) = .ok .null ∧
+    optimize cfgW eW1 4 (.obj [("a", .union [.opt (.union [])])]) = .ok (.obj [("a", .null)]) := by
+  constructor <;>
+  simp [optimize, optimizeUnion, splitMembers, splitMembersAux, Ty.size, Ty.sizeList, Ty.isInt, Ty.isFloat,
+    bind, Except.bind, pure, Except.pure]
+
+theorem replacesSound_cfgW (acc : Accepts) : ReplacesSound acc cfgW.reg := by
+  intro a b hab; simp [cfgW] at hab
+
+theorem replacesRanked_cfgW : ReplacesRanked cfgW.reg :=
+  ⟨fun _ => 0, by intro p hp; simp [cfgW] at hp⟩
+
+theorem optimize_optLike_isOpt_false
+    (hash : ∃ (acc : Accepts) (g : ModelLookup) (K : String → Prop), HashSoundOn false acc g (Ty.Good K)) :
+    ¬ optimize_optLike_isOpt_Statement := by
+  obtain ⟨acc, g, K, hs⟩ := hash
+  intro h
+  have := h acc g K cfgW eW1 4 _ _ hs (pyEq_sound eW1 rfl) (replacesSound_cfgW acc) replacesRanked_cfgW
+    (by simp) optimize_degenerate_witness.1 (by decide)
+  simp [Ty.isOpt] at this
+
+theorem optimize_sound_lax_false
+    (hash : ∃ (acc : Accepts) (g : ModelLookup) (K : String → Prop), HashSoundOn false acc g (Ty.Good K)) :
+    ¬ optimize_sound_lax_Statement := by
+  obtain ⟨acc, g, K, hs⟩ := hash
+  intro h
+  have := h acc g K cfgW eW1 4 _ _ [] hs (pyEq_sound eW1 rfl) (replacesSound_cfgW acc) replacesRanked_cfgW
+    (by simp) optimize_degenerate_witness.2 ⟨by simp, by simp, ?_⟩
+  · -- `{}` does not lie in `{a: Null}`
+    cases this with
+    | obj _ _ h3 =>
+      obtain ⟨kv, hkv, _⟩ := h3 ("a", .null) (by simp) rfl
+      simp at hkv
+  · intro ft hft hno; simp at hft; subst hft
+    revert hno; decide
+
+/-- `optimize_type` of an object also accepts the objects that lie in it *laxly* (refined lax reading: a field
+    whose type is a `DUnion` with a `DOptional` member, a second member and no `DUnion` member may be absent):
+    this is what makes "merge, then optimise" sound.
+    (PARTIAL with respect to `optimize_sound_lax_Statement`: objects that omit a field whose type is
+    `Ty.optLike` but not `Ty.optLikeS` — a degenerate `DUnion` such as `Union[Optional[Union[]]]` — are excluded;
+    for them the statement is false, `optimize_sound_lax_false`.) -/
+theorem optimize_sound_lax_partial {acc : Accepts} {g : ModelLookup} {K : String → Prop} {cfg : GenCfg}
     {e : EqEnv} {fuel : Nat} {fs : Fields} {t' : Ty} {kvs : List (String × Json)}
     (hs : HashSoundOn false acc g (Ty.Good K)) (he : EqSoundOn false acc g e (Ty.Good K))
     (hrep : ReplacesSound acc cfg.reg) (hrank : ReplacesRanked cfg.reg)
     (hg : Ty.Good K (.obj fs))
-    (h : optimize cfg e fuel (.obj fs) = .ok t') (hi : InhFieldsLax acc g fs kvs) :
+    (h : optimize cfg e fuel (.obj fs) = .ok t') (hi : InhFieldsLaxS acc g fs kvs) :
     Inh acc g t' (.obj kvs) :=
   inhX_false_iff.1
-    (((optimize_spec_all hs he hrep hrank fuel).1 _ t' hg h).2.2 _ ⟨kvs, rfl, inhFieldsLX_false_iff.2 hi⟩)
+    (((optimize_spec_all hs he hrep hrank fuel).1 _ t' hg h).2.2 _ ⟨kvs, rfl, inhFieldsLXS_false_iff.2 hi⟩)
 
-/-- an optional-like type (`DOptional`, or `DUnion` with a `DOptional` member) is optimised to a `DOptional` -/
-theorem optimize_optLike_isOpt {acc : Accepts} {g : ModelLookup} {K : String → Prop} {cfg : GenCfg}
+/-- a `DOptional`, or a `DUnion` with a `DOptional` member, a second member and no `DUnion` member
+    (`Ty.optLikeS`) is optimised to a `DOptional`
+    (PARTIAL with respect to `optimize_optLike_isOpt_Statement`, which is false for degenerate unions). -/
+theorem optimize_optLike_isOpt_partial {acc : Accepts} {g : ModelLookup} {K : String → Prop} {cfg : GenCfg}
     {e : EqEnv} {fuel : Nat} {t t' : Ty}
     (hs : HashSoundOn false acc g (Ty.Good K)) (he : EqSoundOn false acc g e (Ty.Good K))
     (hrep : ReplacesSound acc cfg.reg) (hrank : ReplacesRanked cfg.reg)
-    (hg : Ty.Good K t) (h : optimize cfg e fuel t = .ok t') (hl : t.optLike = true) : t'.isOpt = true :=
+    (hg : Ty.Good K t) (h : optimize cfg e fuel t = .ok t') (hl : t.optLikeS = true) : t'.isOpt = true :=
   ((optimize_spec_all hs he hrep hrank fuel).1 t t' hg h).2.1 hl
+
+/-- non-vacuity of the hypothesis of `optimize_optLike_isOpt_partial` -/
+example : (Ty.union [.opt .str, .int]).optLikeS = true ∧ Ty.Good (fun _ => True) (.union [.opt .str, .int]) := by
+  exact ⟨by decide, by simp⟩
 
 /-- **C01.3 + C01.4: "merge, then optimise" is sound, strictly** — what `ModelRegistry._merge` followed by
     `optimize_type(model_meta)` does with the field dicts of the merged models (which do contain `DOptional`
@@ -361,14 +472,15 @@ theorem merge_then_optimize_sound {acc : Accepts} {g : ModelLookup} {K : String 
     (hgood : ∀ m ∈ sets, Ty.Good K (.obj m))
     (hm : mergeFieldSets cfg.lit e sets = .ok F) (ho : optimize cfg e fuel (.obj F) = .ok t')
     (hfs : fs ∈ sets) (hi : InhFields acc g fs kvs) : Inh acc g t' (.obj kvs) :=
-  optimize_sound_lax hs he hrep hrank (mergeFieldSets_good_opt hs he hgood hm) ho
-    (mergeFieldSets_sound hs he hgood hm hfs (inhFields_toLax hi))
+  optimize_sound_lax_partial hs he hrep hrank (mergeFieldSets_good_opt hs he hgood hm) ho
+    (mergeFieldSets_soundS hs he hgood hm hfs (inhFields_toLaxS hi))
 
 /-- non-vacuity of `merge_then_optimize_sound` on the witness of `mergeFieldSets_witness`: the merge of
     `{a: int}` and `{a: Optional[str]}` is optimised to `{a: Optional[Union[int, str]]}`, which holds `{}` -/
 example : optimize cfgW eW1 6 (.obj [("a", .union [.opt .str, .int])]) =
     .ok (.obj [("a", .opt (.union [.int, .str]))]) := by
-  simp [optimize, optimizeUnion, splitMembers, Ty.isInt, Ty.isFloat, Ty.isStr, Ty.isUnknown,
+  simp [optimize, optimizeUnion, splitMembers, splitMembersAux, Ty.size, Ty.isInt, Ty.isFloat,
+    Ty.isStr, Ty.isUnknown,
     Ty.isNull, bind, Except.bind, pure, Except.pure, mkUnionMembers, flattenUnion, handleType, hashStr,
     cfgW]
 
@@ -539,6 +651,14 @@ theorem mergeFieldSets_sound_Statement_false : ¬ mergeFieldSets_sound_Statement
   mergeFieldSets_sound_false ⟨fun _ _ => none, fun _ => none, fun _ => False,
     hashSoundOn_good (fun _ h => h.elim)⟩
 
+theorem optimize_sound_lax_Statement_false : ¬ optimize_sound_lax_Statement :=
+  optimize_sound_lax_false ⟨fun _ _ => none, fun _ => none, fun _ => False,
+    hashSoundOn_good (fun _ h => h.elim)⟩
+
+theorem optimize_optLike_isOpt_Statement_false : ¬ optimize_optLike_isOpt_Statement :=
+  optimize_optLike_isOpt_false ⟨fun _ _ => none, fun _ => none, fun _ => False,
+    hashSoundOn_good (fun _ h => h.elim)⟩
+
 /-! ### non-vacuity: a concrete configuration, oracle and two samples
 
 `"1"` is an `IntString`, `"1.5"` only a `FloatString` (resolved to `FloatString`); `[1, null]` and `[0.0]`
@@ -579,14 +699,16 @@ theorem ex_merge : mergeFieldSets cfgE.lit (genEnv oE) setsR = .ok fieldsR := by
 set_option maxRecDepth 8000 in
 theorem ex_opt_a (n : Nat) : optimize cfgE (genEnv oE) (n + 5) (.union [.ser "FloatString", .ser "IntString"]) =
     .ok (.ser "FloatString") := by
-  simp [cfgE, regE, genEnv, optimize, optimizeUnion, splitMembers, resolve, dedupStr, replacedIn, mkUnion,
+  simp [cfgE, regE, genEnv, optimize, optimizeUnion, splitMembers, splitMembersAux, Ty.size,
+    resolve, dedupStr, replacedIn, mkUnion,
     Ty.isInt, Ty.isFloat, Ty.isNull, Ty.isUnknown, Ty.isStr, bind, Except.bind, pure, Except.pure]
 
 set_option maxRecDepth 8000 in
 theorem ex_opt_b (n : Nat) :
     optimize cfgE (genEnv oE) (n + 6) (.union [.list .float, .list (.union [.int, .null])]) =
       .ok (.list (.opt .float)) := by
-  simp [cfgE, regE, genEnv, optimize, optimizeUnion, splitMembers, removeFirst, resolve, dedupStr, replacedIn,
+  simp [cfgE, regE, genEnv, optimize, optimizeUnion, splitMembers, splitMembersAux, Ty.size, Ty.sizeList,
+    removeFirst, resolve, dedupStr, replacedIn,
     mkUnion, Ty.isInt, Ty.isFloat, Ty.isNull, Ty.isUnknown, Ty.isStr, bind, Except.bind, pure, Except.pure,
     mkUnionMembers, flattenUnion, handleType, hashStr]
 
@@ -652,8 +774,14 @@ end J2M.C01
 #print axioms J2M.C01.mergeFieldSets_good_opt
 #print axioms J2M.C01.optimize_sound
 #print axioms J2M.C01.optimize_sound_Statement_true
-#print axioms J2M.C01.optimize_sound_lax
-#print axioms J2M.C01.optimize_optLike_isOpt
+#print axioms J2M.C01.optimize_sound_lax_partial
+#print axioms J2M.C01.optimize_sound_lax_false
+#print axioms J2M.C01.optimize_optLike_isOpt_partial
+#print axioms J2M.C01.optimize_optLike_isOpt_false
+#print axioms J2M.C01.optimize_degenerate_witness
+#print axioms J2M.C01.optimize_sound_lax_Statement_false
+#print axioms J2M.C01.optimize_optLike_isOpt_Statement_false
+#print axioms J2M.C01.mergeFieldSets_soundS
 #print axioms J2M.C01.merge_then_optimize_sound
 #print axioms J2M.C01.optimize_sound_raw_full
 #print axioms J2M.C01.mergeFieldSets_sound_full_names
